@@ -60,7 +60,7 @@ func C18(p *core.Program, r *core.Report) {
 		r.Stats["classify_paths"] = len(paths)
 		r.Stats["classify_atoms"] = len(atoms)
 		td := `elem(μ(…append(…)…))`
-		dd := `@directDescendants($0,$1)`
+		dd := `@directDescendants($1)`
 		par := `μ($1.Parent|@0.Parent)`
 		role := `strings.ToLower(dom.GetAttribute($1,"role"))`
 		drole := `strings.ToLower(dom.GetAttribute(elem(` + dd + `),"role"))`
@@ -77,13 +77,13 @@ func C18(p *core.Program, r *core.Report) {
 				"desc.tablerole":    q(`in(` + tcDescendantRoles + `,` + drole + `)`),
 				"datatable0":        q(`dom.GetAttribute($1,"datatable") == "0"`),
 				"no.nested":         q(`len(dom.GetElementsByTagName($1,"table")) <= 0`),
-				"rows<=1":           q(`@rowsAndColumns($0,$1)#0 <= 1`),
-				"cols<=1":           q(`@rowsAndColumns($0,$1)#1 <= 1`),
+				"rows<=1":           q(`@rowsAndColumns($1)#0 <= 1`),
+				"cols<=1":           q(`@rowsAndColumns($1)#1 <= 1`),
 				"no.caption":        q(`dom.QuerySelector($1,"caption") == nil`),
-				"caption.text":      q(`@hasValidText($0,dom.QuerySelector($1,"caption"))`),
+				"caption.text":      q(`@hasValidText(dom.QuerySelector($1,"caption"))`),
 				"no.thead":          q(`dom.QuerySelector($1,"thead") == nil`),
 				"no.tfoot":          q(`dom.QuerySelector($1,"tfoot") == nil`),
-				"header.tags":       q(`@hasOneOf($0,` + dd + `,` + tcHeaderTags + `)`),
+				"header.tags":       q(`@hasOneOf(` + dd + `,` + tcHeaderTags + `)`),
 				"loop.collect":      qw(`loop3(… < len(` + dd + `))`),
 				"collect.td":        q(`dom.TagName(elem(` + dd + `)) == "td"`),
 				"loop.td":           qw(`loop4(… < len(μ(…append(…)…)))`),
@@ -93,10 +93,10 @@ func C18(p *core.Program, r *core.Report) {
 				"td.onechild":       qw(`len(dom.GetElementsByTagName(` + td + `,"*")) == 1`),
 				"td.child.abbr":     qw(`dom.TagName(dom.GetElementsByTagName(` + td + `,"*")[0]) == "abbr"`),
 				"summary":           q(`dom.HasAttribute($1,"summary")`),
-				"cols<=4":           q(`@rowsAndColumns($0,$1)#1 <= 4`),
-				"rows<=19":          q(`@rowsAndColumns($0,$1)#0 <= 19`),
+				"cols<=4":           q(`@rowsAndColumns($1)#1 <= 4`),
+				"rows<=19":          q(`@rowsAndColumns($1)#0 <= 19`),
 				"cells<=10":         qw(`len(μ(…append(…)…)) <= 10`),
-				"object.tags":       q(`@hasOneOf($0,` + dd + `,` + tcObjectTags + `)`),
+				"object.tags":       q(`@hasOneOf(` + dd + `,` + tcObjectTags + `)`),
 			},
 			Rules: []core.SpecRule{
 				{"1 editable ancestor -> layout", core.And(core.Not(core.A("loop.ancestors")), core.Or(core.A("anc.input"), core.A("anc.editable"))), "Layout/InsideEditableArea"},
@@ -167,15 +167,21 @@ func C18(p *core.Program, r *core.Report) {
 		if err != nil {
 			r.Undecided("T3", "getDirectDescendants", err.Error())
 		}
-		all := `dom.GetElementsByTagName($1,"*")`
+		// the table parameter (position differs between the method and a function form); flags
+		// handed in by the caller stand for the condition the caller computed
+		T := fmt.Sprintf("$%d", paramIndexOfType(gdd, "*html.Node"))
+		if classify != nil {
+			paths, atoms = substituteFlagParams(p, ddFn, classify, paths, atoms)
+		}
+		all := `dom.GetElementsByTagName(` + T + `,"*")`
 		par := `μ(@0.Parent|elem(` + all + `).Parent)`
 		spec := core.DecisionSpec{
 			Atoms: map[string]string{
-				"no.nested":     q(`len(dom.GetElementsByTagName($1,"table")) <= 0`),
+				"no.nested":     q(`len(dom.GetElementsByTagName(` + T + `,"table")) <= 0`),
 				"loop.all":      qw(`loop1(… < len(` + all + `))`),
 				"loop.ancestor": q(`loop2(` + par + ` == nil)`),
 				"anc.table":     q(`dom.TagName(` + par + `) == "table"`),
-				"anc.is.t":      q(`$1 == ` + par),
+				"anc.is.t":      "^(" + regexp.QuoteMeta(T+` == `+par) + "|" + regexp.QuoteMeta(par+` == `+T) + ")$",
 			},
 			Rules: []core.SpecRule{
 				{"no nested tables: all descendants", core.A("no.nested"), `return ` + all},
